@@ -4,6 +4,9 @@ import ts
 from mir import op_place, op_local, op_const, place_str
 
 ATOMIC = "std::sync::atomic::Atomic::"
+DEPTH = 160        # copy chains grow when helper bodies are inlined into their callers (inline.py)
+import sys
+sys.setrecursionlimit(max(sys.getrecursionlimit(), 6000))
 WRAP = {"overflowing_add": "Add", "overflowing_sub": "Sub", "overflowing_mul": "Mul"}
 WRAPPING = {"wrapping_add": "Add", "wrapping_sub": "Sub", "wrapping_mul": "Mul"}
 CHECKED = {"AddWithOverflow": "Add", "SubWithOverflow": "Sub", "MulWithOverflow": "Mul"}
@@ -33,7 +36,7 @@ class Dag:
         return self.place(o[1], depth)
 
     def place(self, p, depth=0):
-        if depth > 40:
+        if depth > DEPTH:
             return ("deep",)
         base = self.local(p["l"], depth + 1)
         proj = p["p"]
@@ -65,6 +68,15 @@ class Dag:
             return e[1] if idx == 0 else ("ovf", e[1])
         if e[0] == "tuple" and idx < len(e[1]):
             return e[1][idx]
+        if e[0] == "adt" and idx < len(e[2]):
+            # field of a just-built struct value (`let p = Pair { a, b }; p.a`): the operand it was built from
+            return e[2][idx]
+        if e[0] == "variant" and e[2][0] == "phi" and len(e[2]) > 3 and e[2][3] and all(a[0] == "adt" for a in e[2][3]):
+            # payload of `Some` read from a value that is `Some(x)` on one path and `None` on the others (an Option answered by an extracted helper and
+            # matched right away): only the path that built this variant can reach the read
+            same = [a for a in e[2][3] if a[1] == e[1]]
+            if len(same) == 1 and idx < len(same[0][2]):
+                return same[0][2][idx]
         if e[0] == "variant" and e[2][0] == "adt" and e[2][1] == e[1]:
             # field of a just-built enum variant, e.g. (Some(x) as Some).0
             if idx < len(e[2][2]):
@@ -74,7 +86,7 @@ class Dag:
     def local(self, l, depth=0):
         if l in self.memo:
             return self.memo[l]
-        if depth > 40:
+        if depth > DEPTH:
             return ("deep",)
         body = self.body
         if 1 <= l <= body.f["argc"]:
